@@ -21,7 +21,7 @@ struct C2 { // 16 bytes
     T3 t;
     int k0, k1;
     explicit C2(PV x) noexcept : t((int)x), k0(7), k1(9) {}
-    int operator()(int a) const { vf_fn_this = &t; return int(unsigned(t.get()) - unsigned(a) + unsigned(k0) - 7u + unsigned(k1) - 9u); }
+    int operator()(int a) const { vf_fn_this = &t; return int(unsigned(t.get()) - unsigned(a)); }
 };
 using F = etl::inplace_function<int(int), 16>;
 using FS = etl::inplace_function<int(int), 8>;
